@@ -189,6 +189,9 @@ class ScrapliFileHandler(FileHandler_):
             )
 
         self._record_buf.msg = f"read : {self._record_msg_buf!r}"
+        # the buffered payloads are already rendered -- drop the args of the (possibly lazily
+        # formatted) first buffered record so the new message is not %-formatted a second time
+        self._record_buf.args = None
         super().emit(record=self._record_buf)
         self._record_buf = None
         self._record_msg_buf = b""
@@ -217,17 +220,25 @@ class ScrapliFileHandler(FileHandler_):
             super().emit(record=record)
             return
 
+        try:
+            # read messages may be lazily formatted ("read: %r", buf), so the payload lives in the
+            # record args -- render the message, then get the payload of the message after "read: "
+            # and re-convert it to bytes
+            payload = record.getMessage()[self._read_msg_prefix_len :].encode()
+        except Exception:  # pylint: disable=W0703
+            self.handleError(record=record)
+            return
+
         if self._record_buf is None:
             # no message in the buffer, set the current record to the _record_buf
             self._record_buf = record
-            # get the payload of the message after "read: " and re-convert it to bytes
-            self._record_msg_buf = record.msg[self._read_msg_prefix_len :].encode()
+            self._record_msg_buf = payload
             return
 
         # if we get here we know we are getting subsequent read messages we want to buffer -- the
         # log record data will all be the same, its just the payload that will be new, so add that
         # current payload to the _record_msg_buf buffer
-        self._record_msg_buf += record.msg[self._read_msg_prefix_len :].encode()
+        self._record_msg_buf += payload
 
 
 def get_instance_logger(
